@@ -1,5 +1,6 @@
-(* Model of dvc_data/hashfile/transfer.py (transfer, _do_transfer, _add), of the index-free
-   path of hashfile/status.py (status, compare_status), and of the parts of
+(* Model of dvc_data/hashfile/transfer.py (transfer, _do_transfer, _add), of
+   hashfile/status.py (status with and without a remote index, _indexed_dir_hashes,
+   compare_status), and of the parts of
    HashFileDB.add / ObjectDB.add / dvc_objects.fs.generic.transfer a transfer goes through.
 
    source (as of dd1aa82), condensed:
@@ -18,11 +19,22 @@
        ok = src_exists & dest_exists      missing = src_missing & dest_missing
        new = src_exists - dest_exists     deleted = dest_exists - src_exists
 
-     status(odb, obj_ids, cache_odb, shallow)   (index = None)
+     status(odb, obj_ids, index, cache_odb, shallow)
        for hi in obj_ids:
          if hi.isdir and not shallow: for entry in Tree.load(cache_odb, hi): hashes[entry] = ..   # may raise
+         if hi.isdir and index: dir_objs[hi.value] = tree
          hashes[hi.value] = hi
-       exists = odb.oids_exist(hashes);  return exists, hashes - exists
+       if index and hashes:
+         if dir_objs:                                      # _indexed_dir_hashes
+           if some indexed directory id is not in odb: index.clear()
+           for d in (requested directory ids present in odb):
+             tree = dir_objs[d] or Tree.load(cache_odb, d)  (FileNotFoundError: continue)
+             if d not in index: index.update([d], files of tree)
+             yield files of tree, d
+           exists = hashes & yielded ; hashes -= exists
+         if hashes: exists |= index.keys() & hashes ; hashes -= exists
+       if hashes: exists |= odb.oids_exist(hashes)
+       return exists, hashes - exists
 
      _do_transfer(src, dest, new, missing, src_index, dest_index, cache_odb):
        dir_ids, file_ids = split new by isdir ; failed_ids = {} ; succeeded = []
@@ -126,8 +138,8 @@ Record t_in := {
   t_req : list oid;                          (* obj_ids, in iteration order *)
   t_shallow : bool;
   t_verify : bool;
-  t_dix : option rindex;                     (* dest_index as _do_transfer finds it *)
-  t_six : option rindex;                     (* src_index  as _do_transfer finds it *)
+  t_dix : option rindex;                     (* dest_index as transfer() finds it; None = not given *)
+  t_six : option rindex;                     (* src_index as transfer() finds it *)
   t_fails : oid -> bool;                     (* oracle: this upload raises *)
   t_dord : list oid -> list oid;             (* oracle: iteration order of dir_ids *)
   t_bord : list oid -> list oid }.           (* oracle: upload order inside a batch *)
@@ -157,26 +169,81 @@ Fixpoint collect (parse : bytes -> option (list oid)) (cache : store) (shallow :
 Definition status_cache (i : t_in) : store :=
   match t_cache i with Some c => c | None => t_src i end.
 
+(* ---- ObjectDBIndex queries ---- *)
+Definition ix_has (ix : rindex) (o : oid) : bool :=
+  match ix_get o ix with Some _ => true | None => false end.
+Definition ix_keys (ix : rindex) : list oid := dedup (map fst ix).
+Definition ix_dirs (ix : rindex) : list oid :=
+  filter (fun o => match ix_get o ix with Some true => true | _ => false end) (ix_keys ix).
+
+(* the loop of _indexed_dir_hashes over dir_exists: yielded ids and the index afterwards
+   (inl 3: a directory object present in odb does not parse in cache_odb).  Non-shallow runs
+   use the tree loaded by the collection loop from the same cache_odb, so one [load] serves
+   both modes.  The loop runs in request order; for flat listings (no listed id is a
+   directory id) the resulting index does not depend on the order. *)
+Fixpoint indexed_loop (parse : bytes -> option (list oid)) (cache : store) (dirs : list oid)
+         (ix : rindex) : N + (list oid * rindex) :=
+  match dirs with
+  | [] => inr ([], ix)
+  | d :: r =>
+      match load parse cache d with
+      | LoadMissing => indexed_loop parse cache r ix
+      | LoadCorrupt => inl 3
+      | LoadOk l =>
+          let ix' := if ix_has ix d then ix else ix_update d l ix in
+          match indexed_loop parse cache r ix' with
+          | inl k => inl k
+          | inr (y, ix'') => inr (l ++ d :: y, ix'')
+          end
+      end
+  end.
+
+(* status(odb, req, index, cache_odb, shallow): exists, missing, index afterwards.
+   [has odb] stands for odb.oids_exist / odb.list_oids_exists (environment: they answer
+   "is there an object under this id"). *)
+Definition status_ix (parse : bytes -> option (list oid)) (odb cache : store)
+           (ix : option rindex) (shallow : bool) (req : list oid)
+  : N + (list oid * list oid * option rindex) :=
+  match collect parse cache shallow req with
+  | inl k => inl k
+  | inr h0 =>
+      let hashes := dedup h0 in
+      match ix with
+      | None => inr (filter (has odb) hashes, filter (fun o => negb (has odb o)) hashes, None)
+      | Some x =>
+          let rdirs := dedup (filter is_dir_oid req) in
+          let x1 := match rdirs with
+                    | [] => x
+                    | _ :: _ => if forallb (has odb) (ix_dirs x) then x else []
+                    end in
+          match indexed_loop parse cache (filter (has odb) rdirs) x1 with
+          | inl k => inl k
+          | inr (y, x2) =>
+              let ex1 := filter (fun o => mem o y) hashes in
+              let h1 := filter (fun o => negb (mem o y)) hashes in
+              let ex2 := filter (ix_has x2) h1 in
+              let h2 := filter (fun o => negb (ix_has x2 o)) h1 in
+              inr (ex1 ++ ex2 ++ filter (has odb) h2,
+                   filter (fun o => negb (has odb o)) h2, Some x2)
+          end
+      end
+  end.
+
 Record cmp := { c_ok : list oid; c_missing : list oid; c_new : list oid; c_deleted : list oid }.
 
-Definition compare_status (i : t_in) : N + cmp :=
-  match collect (t_parse i) (status_cache i) (t_shallow i) (t_req i) with
+(* compare_status(check_deleted=False): the four sets and both indexes afterwards *)
+Definition compare_status (i : t_in) : N + (cmp * option rindex * option rindex) :=
+  match status_ix (t_parse i) (t_dst i) (status_cache i) (t_dix i) (t_shallow i) (t_req i) with
   | inl k => inl k
-  | inr hd0 =>
-      let hd := dedup hd0 in
-      let dex := filter (has (t_dst i)) hd in
-      let dmiss := filter (fun o => negb (has (t_dst i) o)) hd in
+  | inr (dex, dmiss, dix') =>
       match dmiss with
-      | [] => inr {| c_ok := dex; c_missing := []; c_new := []; c_deleted := [] |}
+      | [] => inr ({| c_ok := dex; c_missing := []; c_new := []; c_deleted := [] |}, dix', t_six i)
       | _ :: _ =>
-          match collect (t_parse i) (t_src i) (t_shallow i) (t_req i) with
+          match status_ix (t_parse i) (t_src i) (t_src i) (t_six i) (t_shallow i) (t_req i) with
           | inl k => inl k
-          | inr hs0 =>
-              let hs := dedup hs0 in
-              let sex := filter (has (t_src i)) hs in
-              let smiss := filter (fun o => negb (has (t_src i) o)) hs in
-              inr {| c_ok := inter sex dex; c_missing := inter smiss dmiss;
-                     c_new := diff sex dex; c_deleted := diff dex sex |}
+          | inr (sex, smiss, six') =>
+              inr ({| c_ok := inter sex dex; c_missing := inter smiss dmiss;
+                      c_new := diff sex dex; c_deleted := diff dex sex |}, dix', six')
           end
       end
   end.
@@ -263,19 +330,25 @@ Definition do_transfer (i : t_in) (new missing : list oid) : list event * option
   else (d_events r, None).
 
 Inductive outcome := TErr (k : N) | TOk (transferred failed : list oid).
-Record t_out := { o_status : option cmp; o_events : list event; o_outcome : outcome }.
+Record t_out := {
+  o_status : option cmp;
+  o_dix : option rindex;                     (* dest_index after the status phase *)
+  o_six : option rindex;                     (* src_index after the status phase *)
+  o_events : list event;
+  o_outcome : outcome }.
 
 Definition transfer (i : t_in) : t_out :=
   match compare_status i with
-  | inl k => {| o_status := None; o_events := []; o_outcome := TErr k |}
-  | inr st =>
+  | inl k => {| o_status := None; o_dix := t_dix i; o_six := t_six i; o_events := []; o_outcome := TErr k |}
+  | inr (st, dix, six) =>
       match c_new st with
-      | [] => {| o_status := Some st; o_events := []; o_outcome := TOk [] [] |}
+      | [] => {| o_status := Some st; o_dix := dix; o_six := six; o_events := []; o_outcome := TOk [] [] |}
       | _ :: _ =>
           match do_transfer i (c_new st) (c_missing st) with
-          | (evs, None) => {| o_status := Some st; o_events := evs; o_outcome := TErr 10 |}
+          | (evs, None) =>
+              {| o_status := Some st; o_dix := dix; o_six := six; o_events := evs; o_outcome := TErr 10 |}
           | (evs, Some failed) =>
-              {| o_status := Some st; o_events := evs;
+              {| o_status := Some st; o_dix := dix; o_six := six; o_events := evs;
                  o_outcome := TOk (diff (c_new st) failed) failed |}
           end
       end
@@ -311,8 +384,9 @@ Fixpoint apply_events (evs : list event) (w : world) : world :=
   | e :: r => apply_events r (step e w)
   end.
 
+(* the world when the uploads start: the status phase has already updated the indexes *)
 Definition init_world (i : t_in) : world :=
-  {| w_src := t_src i; w_dst := t_dst i; w_dix := t_dix i; w_six := t_six i |}.
+  {| w_src := t_src i; w_dst := t_dst i; w_dix := o_dix (transfer i); w_six := o_six (transfer i) |}.
 Definition final_world (i : t_in) : world := apply_events (o_events (transfer i)) (init_world i).
 
 (* a process killed after [n] events *)
@@ -432,8 +506,8 @@ Definition run_round (s : static) (r : round) : val :=
                  end
        end;
        enc_store tbl (s_ctbl s) (w_dst w);
-       enc_index tbl (w_dix w);
-       enc_index tbl (w_six w);
+       match o_status o with Some _ => enc_index tbl (w_dix w) | None => VL [] end;
+       match o_status o with Some _ => enc_index tbl (w_six w) | None => VL [] end;
        enc_store tbl (s_ctbl s) (w_src w) ].
 
 Definition run_scen (c : static * list round) : val := VL (map (run_round (fst c)) (snd c)).
